@@ -101,7 +101,19 @@ func c07Eval(v []int) (string, string, bool) {
 	switch arrival {
 	case "udp":
 		w.Observe()
-		w.SendUDP(fmt.Sprintf("%s:%d", srcIP, srcPort), "127.0.0.1:5060", m.Render())
+		if s.Val(v, "burst") == "followed-by-other-source" {
+			// a second datagram from ANOTHER source is already queued when the first one is handled
+			other := MsgSpec{Method: "OPTIONS", RURI: "sip:bob@svc.example.com", Vias: []string{"SIP/2.0/UDP 10.99.0.7:5097;branch=z9hG4bKother;rport"},
+				From: "<sip:o@ua.example.net>;tag=o", To: "<sip:bob@nomatch.example.org>", CallID: "c07-other", CSeq: "1 OPTIONS"}.Build()
+			src := fmt.Sprintf("%s:%d", srcIP, srcPort)
+			if _, ok := w.udp[src]; !ok {
+				w.udp[src] = w.S.UDPPeer(src)
+			}
+			w.udp[src].Send("127.0.0.1:5060", m.Render())
+			w.SendUDP("127.0.0.8:5070", "127.0.0.1:5060", other.Render())
+		} else {
+			w.SendUDP(fmt.Sprintf("%s:%d", srcIP, srcPort), "127.0.0.1:5060", m.Render())
+		}
 	case "tcp-accepted":
 		c, err := w.S.TCPDial(fmt.Sprintf("%s:%d", srcIP, srcPort+1000), "127.0.0.1:5062")
 		if err != nil {
@@ -137,6 +149,16 @@ func c07Eval(v []int) (string, string, bool) {
 	}
 	if vd := w.S.Verdict(); vd != "" {
 		return "health", desc(vd), true
+	}
+	if s.Val(v, "burst") == "followed-by-other-source" && arrival == "udp" {
+		// keep only the emission of the request under test
+		var mine []vnet.Packet
+		for _, p := range obs.Pkts {
+			if strings.Contains(string(p.Data), "Call-ID: c07\r\n") {
+				mine = append(mine, p)
+			}
+		}
+		obs.Pkts = mine
 	}
 	if len(obs.Pkts) != 1 || obs.Pkts[0].To != nextHop {
 		return "not-relayed", desc("the request should have been relayed to " + nextHop), true
@@ -258,17 +280,20 @@ func init() {
 		{Name: "layout", Vals: []string{"single", "two-entries", "two-lines", "compact"}, Quick: 2},
 		{Name: "path", Vals: []string{"backend", "route", "static"}},
 		{Name: "start", Vals: []string{"main", "startProxy"}, Quick: 1},
+		{Name: "burst", Vals: []string{"alone", "followed-by-other-source"}},
 	}, Eval: c07Eval, Sample: 300}
 	c07Spec.Valid = func(v []int) bool {
 		s := c07Spec
 		if s.Val(v, "arrival") == "tcp-dialled-backend" && (s.Val(v, "path") == "backend" || v[s.idx("source")] != 0) {
 			return false
 		}
+		if v[s.idx("burst")] != 0 && s.Val(v, "arrival") != "udp" {
+			return false
+		}
 		return true
 	}
-	_ = strings.ToUpper
 	addCheck(&Check{ID: "C07", Level: "exploration",
-		Rule:   "complete product through the REAL main() with a YAML file (thorough: also through startProxy): no-received {absent,false,true} x arrival {UDP, accepted TCP connection, TCP connection the proxy dialled to a backend} x true source {plain, other address and high port, equal to the Via sent-by} x rport {absent, valueless, spoofed} x received {absent, spoofed} x Via layout x relaying path; after the request, the next hop answers and the response is followed to the true source; non-trivial = request relayed",
+		Rule:   "complete product through the REAL main() with a YAML file (thorough: also through startProxy): no-received {absent,false,true} x arrival {UDP, accepted TCP connection, TCP connection the proxy dialled to a backend} x true source {plain, other address and high port, equal to the Via sent-by} x rport {absent, valueless, spoofed} x received {absent, spoofed} x Via layout x relaying path x {alone, immediately followed by a datagram from another source}; after the request, the next hop answers and the response is followed to the true source; non-trivial = request relayed",
 		Assume: []string{"position of a newly added Via parameter is not prescribed (parameters of the sender's entry compared as a multiset)"},
 		Run:    func(c *Ctx) { c07Spec.Run(c); cleanupYamlFiles() },
 		Replay: func(c *Ctx, raw json.RawMessage) string { defer cleanupYamlFiles(); return c07Spec.Replay(raw) },
